@@ -59,10 +59,10 @@ func nsAlphabet() []fsx.Op {
 		fsx.Op{K: "WRITE", H: "root/a", Off: 0, Cnt: 8192, Pat: 0x55, Stable: 2}, // size an exact multiple of the block size
 		fsx.Op{K: "SETATTR", H: "root/a", Size: 8192},
 		fsx.Op{K: "SETATTR", H: "root/a", NoSize: true, Mtime: 12345, Atime: 678},
-		fsx.Op{K: "SETATTR", H: "root/a", NoSize: true, Mtime: 777}, // mtime alone
+		fsx.Op{K: "SETATTR", H: "root/a", NoSize: true, Mtime: 777},        // mtime alone
 		fsx.Op{K: "SETATTR", H: "root/a", NoSize: true, Perm: 7, STime: 3}, // mode/uid/gid (ignored by the server) and both times to the server's time
-		fsx.Op{K: "SETATTR", H: "root/d", NoSize: true, Atime: 888}, // atime alone, on a directory
-		fsx.Op{K: "SETATTR", H: "root/a", Size: 200, Mtime: 999},    // size and mtime together
+		fsx.Op{K: "SETATTR", H: "root/d", NoSize: true, Atime: 888},        // atime alone, on a directory
+		fsx.Op{K: "SETATTR", H: "root/a", Size: 200, Mtime: 999},           // size and mtime together
 		fsx.Op{K: "RESTART"},
 		fsx.Op{K: "WRITE", H: "dead:root/a", Off: 0, Cnt: 10, Pat: 0x44, Stable: 2},
 		fsx.Op{K: "MKNOD", H: "root", N: "n"},
